@@ -48,7 +48,7 @@ class C09(Prop):
             rows = tuple(tuple(rng.choice(alpha) if j == 0 else rng.choice([1, 2, 3, 10, True]) if j == 1
                                else rng.choice(['x', 'y', None]) for j in range(w)) for _ in range(nrows))
             t = (hdr,) + rows
-            key = rng.choice([hdr[0], hdr[0], 0, (hdr[0],), (hdr[0], hdr[1])])
+            key = rng.choice([hdr[0], hdr[0], 0, (hdr[0],), (hdr[0], hdr[1]), hdr[1], (hdr[1], hdr[0]), 1])
             bs = rng.choice([None, None, 1, 2])
             val = hdr[1]
             agg = rng.choice([0, 1, 2, 3, 4, 5, 6, 7])
@@ -64,13 +64,21 @@ class C09(Prop):
             yield Case('reduce', ('rowreduce', False, bs, t, key, zoo.fn(rng.choice([0, 1, 2])),
                                   rng.choice([None, None, ('k', 'n')])))
             yield Case('reduce', ('groupselect', False, bs, t, rng.choice([0, 1, 2, 3]), key, val))
-            yield Case('reduce', ('mergeduplicates', False, bs, t, rng.choice([hdr[0], (hdr[0],), (hdr[0], hdr[1])]),
+            yield Case('reduce', ('mergeduplicates', False, bs, t,
+                                  rng.choice([hdr[0], (hdr[0],), (hdr[0], hdr[1]), hdr[1], (hdr[1], hdr[0]), hdr[-1]]),
                                   rng.choice([None, None, 'x'])))
+            # groupcountdistinctvalues: per key, the number of distinct values (judged on the implementation's output)
+            yield Case('gcdv', (hdr[0], hdr[1], t))
             yield Case('reduce', ('fold', False, bs, t, key, zoo.fn(rng.choice([0, 1])), rng.choice([val, val, None])))
             yield Case('reduce', ('valuecounts', False, None, t, rng.choice([(hdr[0],), (hdr[0], hdr[1])]), None))
 
     def impl(self, case):
         import petl as etl
+        if case.op == 'const_true':
+            try:
+                return codec.t_bool(self._gcdv(*case.arg))
+            except Exception as e:   # noqa
+                return obs_exc(e)
         opn, pre, bs, t = case.arg[:4]
         args = case.arg[4:]
         src = [list(r) for r in t]
@@ -112,7 +120,41 @@ class C09(Prop):
     def observe(self, case, obs):
         return canon_conflicts(obs)
 
+    def expand(self, case):
+        if case.op == 'gcdv':
+            return Case('const_true', case.arg, dict(case.meta, orig='gcdv'))
+        return case
+
+    def _gcdv(self, key, value, t):
+        import petl as etl
+        from petl.comparison import Comparable
+        got = list(etl.groupcountdistinctvalues([list(r) for r in t], key, value))
+        ki, vi = t[0].index(key), t[0].index(value)
+        groups = []
+        for r in t[1:]:
+            for g in groups:
+                if g[0] == r[ki]:
+                    g[1].append(r[vi])
+                    break
+            else:
+                groups.append([r[ki], [r[vi]]])
+        groups.sort(key=lambda g: Comparable(g[0]))
+        rows = []
+        for k, vals in groups:
+            distinct = []
+            for v in vals:
+                if not any(v == d for d in distinct):
+                    distinct.append(v)
+            rows.append((k, len(distinct)))
+        return [tuple(r) for r in got[1:]] == rows and tuple(got[0]) == (key, 'value')
+
     def valid(self, case):
+        if case.op == 'const_true':
+            try:
+                key, value, t = case.arg
+                return len(t) >= 1 and key in t[0] and value in t[0] and all(len(r) == len(t[0]) for r in t[1:])
+            except Exception:
+                return False
         try:
             t = case.arg[3]
             if len(t) < 1 or len(t[0]) < 1 or not all(isinstance(f, str) for f in t[0]):
@@ -123,8 +165,13 @@ class C09(Prop):
         except Exception:
             return False
 
+    def spec(self, case, impl_obs, model_obs):
+        if case.op == 'const_true':
+            return impl_obs == codec.t_bool(True)
+        return None
+
     def spec_case(self, case, impl_obs):
-        if not self.valid(case) or impl_obs[0] != 'li':
+        if case.op == 'const_true' or not self.valid(case) or impl_obs[0] != 'li':
             return None
         opn, pre, bs, t = case.arg[:4]
         args = case.arg[4:]
@@ -145,6 +192,8 @@ class C09(Prop):
         return None
 
     def nontrivial(self, case):
+        if case.op in ('const_true', 'gcdv'):
+            return len(case.arg[-1]) >= 3
         return len(case.arg[3]) >= 3
 
 
